@@ -351,13 +351,23 @@ Theorem call_tree_checker_bounds_generations : forall v6 tr cur st s', tree_run 
 Proof. exact tree_run_gens. Qed.
 Print Assumptions call_tree_checker_bounds_generations.
 
-(* non-vacuity: IPv6Access on, the new delegation starts a walk (generation 1, marked context); inside it nothing starts
-   another: the same adversary choices under a marked client context start none at all *)
+(* non-vacuity: IPv6Access on, the new delegation starts exactly one walk (one sub-run, generation 1, on the marked fresh
+   context; adv1 is the adversary of detached_and_validation_example: consultations 10-12 are the walk's — how many
+   glue-less names it looks up, cache hit, nothing to chase).  Inside a walk nothing starts another: under a marked
+   client context the same choices for the chain itself (adv1 without the walk's three consultations, which a marked
+   context never asks for) give the same two exchanges and no sub-run at all; and adv1 unchanged — now read at shifted
+   positions, a different run of 11 exchanges — starts no sub-run either *)
 Example one_generation_example :
   let pol := mk_T_RecursionWorkPolicy mode_enforce 128 32 4 8 32 32 32 32 in
   let adv1 := fun j => nth j [0;0;0;3;0;2;6;0;0;1;1;1;0;0;0;3;0;0;0;0]%nat 0%nat in
+  let adv1m := fun j => nth j [0;0;0;3;0;2;6;0;0;1;0;0;3;0;0;0;0]%nat 0%nat in
+  let marked := mk_cx false O O false true in
+  let is_start := fun e => match e with EvS _ _ _ => true | _ => false end in
+  trace adv1 (client 30 5 true 1 1 3 2 cx0) (fresh pol) = [EvX 1 0; EvS (mk_sl 1 cx_fresh) 1 1; EvE; EvX 2 1] /\
   gens_of false 0 [] (trace adv1 (client 30 5 true 1 1 3 2 cx0) (fresh pol)) = [1%nat] /\
-  trace adv1 (client 30 5 true 1 1 3 2 (mk_cx false O O false true)) (fresh pol) = [EvX 1 0; EvX 2 0].
+  trace adv1m (client 30 5 true 1 1 3 2 marked) (fresh pol) = [EvX 1 0; EvX 2 0] /\
+  length (trace adv1 (client 30 5 true 1 1 3 2 marked) (fresh pol)) = 11%nat /\
+  filter is_start (trace adv1 (client 30 5 true 1 1 3 2 marked) (fresh pol)) = [].
 Proof. vm_compute. repeat split. Qed.
 
 (* overbudget_is_servfail_not_cached: if the request tree ends with a latched rejection, the client's
